@@ -467,6 +467,7 @@ class Ledger:
                     msg = "message %d left the queue but recipient %r (x%d) got only %d final reports: dropped (reports %r)" % (
                         n, a, mult, fin, [(l, dy) for l, t, dy, inc in reps])
                     res.v("C03", msg)
+                    res.v("C03-drop", msg)         # the safety core of C03: in force under every kind of injected failure (memory included)
                     if any(l == b"Z" and dy is False for l, t, dy, inc in reps):
                         res.v("C15", "a temporary failure ended the recipient although the message is younger than queuelifetime: " + msg)
         if m["sender"] == b"#@[]":
@@ -489,6 +490,7 @@ class Ledger:
                 if not o["noticed"] and not o["waived"]:
                     msg = "message %d left the queue; recipient %r failed permanently (%r) but no bounce naming it was queued" % (n, o["addr"], o["text"][:60])
                     res.v("C03", msg)
+                    res.v("C03-drop", msg)
                     res.v("C14", msg)
                     res.v("C14-owed", msg)         # the C14 clause that stays sound across a crash (image kept) and restart
         # nothing of a departed message may stay behind: a bounce record that outlives its message (e.g. of a discarded double bounce)
